@@ -52,9 +52,9 @@ RULE = ("P: all dictionaries with 1..2 (thorough 3) entries over the value alpha
         "B: SimulationResults bookkeeping grid - runned_reps in {None,0,[],[0],[0,0],int64(0),7,[2,5]} x current_rep in "
         "{-1,0,4} x original_filename in {None,'',template} x results {none, zero updates, one update, all-zero values} x "
         "parameters {none, one, child with unpack_index 0, unpacked of length 1 / 0} x {json, pickle, to_dict/from_dict, "
-        ".json/.pickle/extension-less file}; E: error paths (malformed / truncated JSON and pickle must raise and leave "
-        "the directory untouched, unknown extension, failing save must leave the file under the final name intact, "
-        "unwritable destinations); alternative entry points (to_dict/from_dict, load_from_file on the '.pickle'-less "
+        ".json/.pickle/extension-less file}; E: invalid calls (malformed / truncated files, unknown extension, save of an "
+        "unsupported value, unwritable destinations) are recorded as outcomes only - required is that afterwards a valid "
+        "save+load of the same object round-trips and an earlier valid file still loads equal; alternative entry points (to_dict/from_dict, load_from_file on the '.pickle'-less "
         "name, save_to/load_from_pickled_file, get_filename_with_replaced_params); "
         "file-name determinism and pairwise injectivity over the scalar alphabet (incl. tiny floats, large floats a "
         "fine step / one ulp apart, ints beyond 2^53, narrow floats). Non-trivial = the object holds "
@@ -933,163 +933,160 @@ def good_results(extra=None):
     return s
 
 
+def invalid_call(c, what, fn, obj=None):
+    """INVALID_CALL_POLICY: an invalid call is free (may raise anything or be
+    accepted); what happened is an outcome, never a failure."""
+    snap = copy.deepcopy(obj) if obj is not None else None
+    try:
+        fn()
+        how = "accepted"
+    except Exception as e:  # noqa
+        how = "raised:" + type(e).__name__
+    changed = "object_unchanged"
+    if obj is not None and (diff(snap, obj) is not None or snap.original_filename != obj.original_filename):
+        changed = "object_changed"
+    c.count("eval_invalid_calls")
+    c.outcome("invalid_call", (what, how, changed))
+    return how
+
+
+def after_invalid_call(c, what, case, T, obj, earlier):
+    """the one thing property C17 does require after an invalid call: a VALID
+    save + load of the same object still round-trips exactly, and an earlier
+    VALID file of another name still loads equal (neither the object nor
+    unrelated files were corrupted)."""
+    from pyphysim.simulations.results import SimulationResults
+    with c.guard(("after_invalid_call", what), case):
+        if earlier is not None:
+            path, original = earlier
+            back = SimulationResults.load_from_file(path)
+            d = diff(original, back)
+            if d is not None or not (back == original):
+                c.fail(("after_invalid_call", what, "earlier_valid_file_loads_equal"), case,
+                       observed=d[2] if d else "== False")
+        if obj is not None:
+            for ext in (".json", ".pickle"):
+                d, p = T.path("valid_after" + ext)
+                try:
+                    o2 = copy.deepcopy(obj)
+                    name = o2.save_to_file(p)
+                    back = SimulationResults.load_from_file(name)
+                    dd = diff(obj, back)
+                    if dd is not None or not (back == obj):
+                        c.fail(("after_invalid_call", what, "valid_save_load_roundtrip"), dict(case, ext=ext),
+                               observed=dd[2] if dd else "== False")
+                finally:
+                    shutil.rmtree(d, ignore_errors=True)
+        c.count("eval_after_invalid_call")
+
+
 def part_errors(c, T):
+    """Invalid calls around save/load.  Property C17 speaks about objects built
+    from supported values; what a malformed file, an unknown extension or a
+    failing save does is NOT part of it (tools/INVALID_CALL_POLICY.md): recorded
+    as outcomes.  Required is only what `after_invalid_call` checks.  (Crash
+    safety of the results file is property C07's subject.)"""
     from pyphysim.simulations.parameters import SimulationParameters
     from pyphysim.simulations.results import Result, SimulationResults
     good = good_results()
     text = good.to_json()
     pk = pickle.dumps(good, protocol=2)
-    # (a) malformed input must raise, leave the directory as it was
+
+    def with_earlier(fn_body, what, case, obj_after=None, make_obj=None):
+        """runs `fn_body(d)` (the invalid calls) in a directory that already holds a valid file"""
+        d, keep = T.path("earlier_valid.json")
+        try:
+            original = good_results()
+            copy.deepcopy(original).save_to_file(keep)
+            before = listing(d)
+            obj = fn_body(d)
+            after = listing(d)
+            c.outcome("invalid_call_directory", (what, "unchanged" if after == before else
+                                                 "new:" + ",".join(sorted(os.path.splitext(f)[1] for f in
+                                                                          set(after) - set(before)))))
+            after_invalid_call(c, what, case, T, obj, (keep, original))
+        finally:
+            shutil.rmtree(d, ignore_errors=True)
+
+    # (a) malformed JSON / truncated pickle handed to the loaders
     bad_texts = [("empty", ""), ("open_brace", "{"), ("half", text[:len(text) // 2]), ("not_json", "not json"),
                  ("list", "[]"), ("empty_object", "{}"), ("null", "null"), ("trailing_garbage", text + "}"),
                  ("missing_results", json.dumps({k: v for k, v in json.loads(text).items() if k != "results"}))]
     for label, bad in bad_texts:
         case = {"part": "E", "what": "load_malformed_json", "which": label}
-        with c.guard(("load_malformed",), case):
-            d, p = T.path("bad.json")
+
+        def body(d, bad=bad, label=label):
+            p = os.path.join(d, "bad.json")
             with open(p, "w") as f:
                 f.write(bad)
-            before = listing(d)
-            c.count("eval_error_paths")
-            for how, fn in (("load_from_file", lambda: SimulationResults.load_from_file(p)),
-                            ("SimulationResults.from_json", lambda: SimulationResults.from_json(bad)),
-                            ("SimulationParameters.from_json", lambda: SimulationParameters.from_json(bad)),
-                            ("Result.from_json", lambda: Result.from_json(bad))):
-                try:
-                    got = fn()
-                except Exception as e:  # noqa
-                    c.outcome("error_path_outcomes", (how, type(e).__name__))
-                else:
-                    c.fail(("load_malformed", "accepted", how), dict(case, how=how), observed=repr(got)[:200],
-                           expected="an exception")
-            if listing(d) != before:
-                c.fail(("load_malformed", "directory_changed"), case, observed=sorted(listing(d)),
-                       expected=sorted(before))
-            shutil.rmtree(d, ignore_errors=True)
+            what = "load_malformed_json:" + label
+            invalid_call(c, what + ":load_from_file", lambda: SimulationResults.load_from_file(p))
+            invalid_call(c, what + ":SimulationResults.from_json", lambda: SimulationResults.from_json(bad))
+            invalid_call(c, what + ":SimulationParameters.from_json", lambda: SimulationParameters.from_json(bad))
+            invalid_call(c, what + ":Result.from_json", lambda: Result.from_json(bad))
+            os.remove(p)
+            return good_results()
+        with c.guard(("after_invalid_call", "load_malformed_json"), case):
+            with_earlier(body, "load_malformed_json", case)
     for label, bad in (("empty", b""), ("half", pk[:len(pk) // 2]), ("all_but_one", pk[:-1]), ("text", b"hello")):
         case = {"part": "E", "what": "load_malformed_pickle", "which": label}
-        with c.guard(("load_malformed",), case):
-            d, p = T.path("bad.pickle")
+
+        def body(d, bad=bad, label=label):
+            p = os.path.join(d, "bad.pickle")
             with open(p, "wb") as f:
                 f.write(bad)
-            before = listing(d)
-            c.count("eval_error_paths")
-            for how, fn in (("load_from_file", lambda: SimulationResults.load_from_file(p)),
-                            ("load_from_file_pickleless", lambda: SimulationResults.load_from_file(p[:-7])),
-                            ("load_from_pickled_file", lambda: SimulationParameters.load_from_pickled_file(p))):
-                try:
-                    got = fn()
-                except Exception as e:  # noqa
-                    c.outcome("error_path_outcomes", (how, type(e).__name__))
-                else:
-                    c.fail(("load_malformed", "accepted", how), dict(case, how=how), observed=repr(got)[:200],
-                           expected="an exception")
-            if listing(d) != before:
-                c.fail(("load_malformed", "directory_changed"), case, observed=sorted(listing(d)),
-                       expected=sorted(before))
-            shutil.rmtree(d, ignore_errors=True)
-    # (b) unknown extension: must raise, leave no file; a file of that name is not loaded either
+            what = "load_malformed_pickle:" + label
+            invalid_call(c, what + ":load_from_file", lambda: SimulationResults.load_from_file(p))
+            invalid_call(c, what + ":load_from_file_pickleless", lambda: SimulationResults.load_from_file(p[:-7]))
+            invalid_call(c, what + ":load_from_pickled_file", lambda: SimulationParameters.load_from_pickled_file(p))
+            os.remove(p)
+            return good_results()
+        with c.guard(("after_invalid_call", "load_malformed_pickle"), case):
+            with_earlier(body, "load_malformed_pickle", case)
+    # (b) unknown extension
     case = {"part": "E", "what": "unknown_extension"}
-    with c.guard(("unknown_extension",), case):
-        d, p = T.path("res_{a}.txt")
+
+    def body(d):
         s = good_results()
-        snap = copy.deepcopy(s)
-        c.count("eval_error_paths")
-        try:
-            name = s.save_to_file(p)
-        except Exception as e:  # noqa
-            c.outcome("error_path_outcomes", ("save_unknown_extension", type(e).__name__))
-        else:
-            c.fail(("unknown_extension", "save_accepted"), case, observed=name, expected="an exception")
-        if listing(d):
-            c.fail(("unknown_extension", "save_left_files"), case, observed=sorted(listing(d)), expected=[])
-        dd = diff(snap, s)
-        if dd is not None or snap.original_filename != s.original_filename:
-            # recorded, not required: the statement is about what is on disk
-            c.outcome("failed_save_touches_object", "unknown_extension:original_filename")
+        invalid_call(c, "save_unknown_extension", lambda: s.save_to_file(os.path.join(d, "res_{a}.txt")), s)
         with open(os.path.join(d, "x.txt"), "w") as f:
             f.write(text)
-        try:
-            got = SimulationResults.load_from_file(os.path.join(d, "x.txt"))
-        except Exception as e:  # noqa
-            c.outcome("error_path_outcomes", ("load_unknown_extension", type(e).__name__))
-        else:
-            c.fail(("unknown_extension", "load_accepted"), case, observed=repr(got), expected="an exception")
-        shutil.rmtree(d, ignore_errors=True)
-    # (c) a save that fails must not damage / replace what is stored under the final name
+        invalid_call(c, "load_unknown_extension", lambda: SimulationResults.load_from_file(os.path.join(d, "x.txt")))
+        os.remove(os.path.join(d, "x.txt"))
+        s.original_filename = None      # reported state re-synchronised: the field is set by a (valid) save
+        return s
+    with c.guard(("after_invalid_call", "unknown_extension"), case):
+        with_earlier(body, "unknown_extension", case)
+    # (c) a save that fails on an unsupported parameter value; afterwards the value is removed (valid call)
     for ext, poison in ((".json", complex(1, 2)), (".pickle", lambda x: x)):
-        for existing in (True, False):
-            case = {"part": "E", "what": "failing_save", "ext": ext, "existing_file": existing}
-            with c.guard(("failing_save",), case):
-                d, p = T.path("keep" + ext)
-                if existing:
-                    good_results().save_to_file(p)
-                before = listing(d)
-                s = good_results(extra=poison)
-                c.count("eval_error_paths")
-                try:
-                    s.save_to_file(p)
-                except Exception as e:  # noqa
-                    c.outcome("error_path_outcomes", ("failing_save" + ext, type(e).__name__))
-                else:
-                    c.fail(("failing_save", "unserialisable_value_accepted"), case, expected="an exception")
-                    shutil.rmtree(d, ignore_errors=True)
-                    continue
-                after = listing(d)
-                final = os.path.basename(p)
-                if after.get(final) != before.get(final):
-                    c.fail(("failing_save", "file_under_final_name_changed_or_created", ext), case,
-                           observed="%d bytes" % len(after.get(final, b"")),
-                           expected="%s" % ("unchanged" if existing else "absent"))
-                if existing:
-                    back = SimulationResults.load_from_file(p)
-                    if diff(good_results(), back) is not None or not (back == good_results()):
-                        c.fail(("failing_save", "earlier_results_lost", ext), case, observed=diff(good_results(), back))
-                extra_files = sorted(set(after) - set(before))
-                c.outcome("failed_save_leftovers", (ext, tuple(os.path.splitext(f)[1] for f in extra_files)))
-                shutil.rmtree(d, ignore_errors=True)
+        case = {"part": "E", "what": "failing_save", "ext": ext}
+
+        def body(d, ext=ext, poison=poison):
+            s = good_results(extra=poison)
+            invalid_call(c, "save_unsupported_value" + ext, lambda: s.save_to_file(os.path.join(d, "other" + ext)), s)
+            s.params.remove("bad")
+            s.original_filename = None
+            return s
+        with c.guard(("after_invalid_call", "failing_save"), case):
+            with_earlier(body, "failing_save" + ext, case)
     # (d) unwritable destinations
     for label in ("missing_directory", "final_name_is_a_directory"):
         for ext in (".json", ".pickle"):
             case = {"part": "E", "what": "unwritable", "which": label, "ext": ext}
-            with c.guard(("unwritable_destination",), case):
-                d, p = T.path("out" + ext)
+
+            def body(d, label=label, ext=ext):
+                s = good_results()
                 if label == "missing_directory":
                     p = os.path.join(d, "nowhere", "out" + ext)
                 else:
+                    p = os.path.join(d, "out" + ext)
                     os.mkdir(p)
-                    with open(os.path.join(p, "inside"), "w") as f:
-                        f.write("x")
-                before = listing(d)
-                c.count("eval_error_paths")
-                try:
-                    good_results().save_to_file(p)
-                except Exception as e:  # noqa
-                    c.outcome("error_path_outcomes", ("unwritable:" + label, type(e).__name__))
-                else:
-                    c.fail(("unwritable_destination", "save_accepted", label), case, expected="an exception")
-                after = listing(d)
-                changed = {k for k in before if after.get(k) != before[k]}
-                if changed or (label == "missing_directory" and after):
-                    c.fail(("unwritable_destination", "existing_content_damaged", label), case,
-                           observed=sorted(after), expected=sorted(before))
-                if os.path.isfile(p):
-                    c.fail(("unwritable_destination", "partial_file_under_final_name", label), case)
-                shutil.rmtree(d, ignore_errors=True)
-    # (e) SimulationParameters pickled-file entry point, error side
-    case = {"part": "E", "what": "params_pickled_file_missing_directory"}
-    with c.guard(("unwritable_destination",), case):
-        d, p = T.path("x")
-        c.count("eval_error_paths")
-        try:
-            good.params.save_to_pickled_file(os.path.join(d, "nowhere", "p.pickle"))
-        except Exception as e:  # noqa
-            c.outcome("error_path_outcomes", ("params_missing_directory", type(e).__name__))
-        else:
-            c.fail(("unwritable_destination", "save_accepted", "params"), case, expected="an exception")
-        if listing(d):
-            c.fail(("unwritable_destination", "left_files", "params"), case, observed=sorted(listing(d)))
-        shutil.rmtree(d, ignore_errors=True)
+                invalid_call(c, "save_to_" + label + ext, lambda: s.save_to_file(p), s)
+                invalid_call(c, "params_save_to_" + label, lambda: s.params.save_to_pickled_file(p))
+                s.original_filename = None
+                return s
+            with c.guard(("after_invalid_call", "unwritable_destination"), case):
+                with_earlier(body, "unwritable_" + label, case)
 
 
 # ----------------------------------------------------------------------
@@ -1240,7 +1237,7 @@ def main(chk: Check):
     chk.require_outcomes("result_histories", 6)
     chk.require_outcomes("roundtrip_outcomes", 4)
     chk.require_outcomes("bookkeeping_shapes", len(BK_PARAMS) * len(BK_RESULTS))
-    chk.require_outcomes("error_path_outcomes", 10)
+    chk.require_outcomes("invalid_call", 10)
 
 
 def replay(case, chk: Check):
